@@ -372,7 +372,7 @@ ALPHABET = [
 
 def gen_cases(tier, seed):
     cases = []
-    nrand = 600 if tier == "quick" else 12000
+    nrand = 600 if tier == "quick" else 60000
     for i in range(nrand):
         cases.append({"plan": {"seed": seed * 1000003 + i, "length": 30, "users": "A" if i % 3 else "B",
                                "mss": [1460, 1460, 7, 64][i % 4], "block_size": [8192, 512, 7][i % 3]}})
